@@ -38,9 +38,11 @@ TIE = {
     'gen_dir': 'MalVerif/Py/GenClasses',
     'gen_modules': MODULE_ORDER,
     'chain': ['MalVerif.Py.AbsClasses', 'MalVerif.Py.TieClassesBase', 'MalVerif.Py.TieClassesAssets',
-              'MalVerif.Py.TieClassesAssoc', 'MalVerif.Py.TieClassesTop', 'MalVerif.PropsGen.C06'],
+              'MalVerif.Py.TieClassesAssoc', 'MalVerif.Py.TieClassesAssocAbs', 'MalVerif.Py.TieClassesSig',
+              'MalVerif.Py.TieClassesTop', 'MalVerif.PropsGen.C06'],
     'needs': {'C06': ['MalVerif.Py.TieClassesBase', 'MalVerif.Py.TieClassesAssets', 'MalVerif.Py.TieClassesAssoc',
-                      'MalVerif.Py.TieClassesTop', 'MalVerif.PropsGen.C06']},
+                      'MalVerif.Py.TieClassesAssocAbs', 'MalVerif.Py.TieClassesSig', 'MalVerif.Py.TieClassesTop',
+                      'MalVerif.PropsGen.C06']},
     'sources': {'C06': 'language/classes_factory.py: LanguageClassesFactory._generate_assets, _generate_associations '
                        '(create_association_entry, create_association_with_subentries, create_association_field), '
                        '_create_classes (python_jsonschema_objects is a parameter: Pjs), get_association_by_signature'},
